@@ -154,11 +154,21 @@ impl Completions {
         // Process the remaining completions events that are ready.
         // NOTE: we explitly enter here to ensure we get the latests completions
         // from the kernel, poll doesn't guarantee that.
-        if let Err(err) = shared.enter(1, libc::IORING_ENTER_GETEVENTS, Some(Duration::ZERO)) {
-            log::warn!("error getting last completions: {err}");
-        }
-        if let Err(err) = self.poll(shared, Some(Duration::ZERO)) {
-            log::warn!("error processing last completions: {err}");
+        // NOTE: if the completion queue overflowed the kernel only gives us the
+        // remaining completions once we've made room for them, so we keep
+        // going until there is nothing left to process.
+        loop {
+            if let Err(err) = shared.enter(1, libc::IORING_ENTER_GETEVENTS, Some(Duration::ZERO)) {
+                log::warn!("error getting last completions: {err}");
+            }
+            let head = load_kernel_shared(self.entries_head);
+            if let Err(err) = self.poll(shared, Some(Duration::ZERO)) {
+                log::warn!("error processing last completions: {err}");
+                break;
+            }
+            if load_kernel_shared(self.entries_head) == head {
+                break;
+            }
         }
     }
 }
